@@ -147,7 +147,7 @@ func FloatLit(t *rapid.T) string {
 
 var strAlphabet = []string{
 	"a", "b", "z", "A", "0", "7", " ", " ", "\t", "#", ";", "(", ")", "{", "}", "=", "-", ">", "/", "*",
-	"\"", "\\", "\n", "\r", "'", " ", "\u0085", "é", "ß", "日", "😀", "\x00", "\x7f", "_", ":", "var", "def", "nil",
+	"\"", "\\", "\n", "\r", "'", " ", "\u0085", "é", "ß", "日", "😀", "\x00", "\x7f", "_", ":", "var", "def", "nil", ".", ".", "a.b",
 }
 
 // StrValue draws a string value (valid UTF-8) over an alphabet rich in the
